@@ -63,6 +63,11 @@ class SymWorld(World):
         self.numeric_hits = 0
         self.failed_classes = set()
 
+    def mod(self, name):
+        """submodule lentil.<name> of the private (symbolic) package"""
+        from . import loader
+        return loader.CURRENT[0]._get('lentil.' + name)
+
     # ---- inputs
     def real(self, name, pos=False, nonneg=False, lo=None, hi=None, nz=False):
         s = core.real_var(name, pos=pos, nonneg=nonneg, lo=lo, hi=hi, nz=nz)
@@ -121,6 +126,25 @@ class SymWorld(World):
         z = SCx.of(z)
         return z.abs2()
 
+    def cos(self, x):
+        return arrays.e_cos(core.as_num(x)) if isinstance(x, SNum) else math.cos(x)
+
+    def sin(self, x):
+        return arrays.e_sin(core.as_num(x)) if isinstance(x, SNum) else math.sin(x)
+
+    def poly_coeffs(self, expr, var):
+        """{degree: Fraction} of a univariate polynomial in the input `var` (normal-form inspection)."""
+        p = core.as_num(expr).p
+        vid = core.as_num(var).p
+        (m, c), = vid.t.items()
+        v = m[0][0]
+        out = {}
+        for mono, cf in p.t.items():
+            if any(w != v for w, e in mono):
+                raise SymxUnsupported('not univariate')
+            out[mono[0][1] if mono else 0] = cf
+        return out
+
     def conj(self, z):
         return SCx.of(z).conjugate()
 
@@ -155,6 +179,15 @@ class SymWorld(World):
     def is_true(self, cond):
         """Decide a condition inside the harness (forks like lentil's own branches)."""
         return bool(cond)
+
+    def concrete(self, x):
+        """numeric numpy array of a result that carries no symbolic value (raises otherwise)"""
+        return arrays.concrete(x)
+
+    def float_constants(self):
+        """sqrt of concrete numbers stays a float (as in numpy) instead of an exact algebraic atom: for harnesses whose
+        obligations carry a tolerance anyway"""
+        arrays.EXACT[0] = False
 
     def pi(self):
         return core.SPI
@@ -398,6 +431,10 @@ class ConcWorld(World):
         self.tol = tol
         self.used = {}
 
+    def mod(self, name):
+        import importlib
+        return importlib.import_module('lentil.' + name)
+
     def _val(self, name, kind, pos=False, nonneg=False, lo=None, hi=None, nz=False):
         if name in self.values:
             v = self.values[name]
@@ -460,6 +497,12 @@ class ConcWorld(World):
     def abs2(self, z):
         return (z * rnp.conj(z)).real
 
+    def cos(self, x):
+        return math.cos(x)
+
+    def sin(self, x):
+        return math.sin(x)
+
     def conj(self, z):
         return rnp.conj(z)
 
@@ -472,6 +515,8 @@ class ConcWorld(World):
     def array(self, x): return rnp.asarray(x)
     def zeros(self, shape, complex_=False): return rnp.zeros(shape, dtype=complex if complex_ else float)
     def is_true(self, cond): return bool(cond)
+    def concrete(self, x): return rnp.asarray(x)
+    def float_constants(self): pass
     def pi(self): return math.pi
 
     def _record(self, name, status, detail=None):
